@@ -17,6 +17,7 @@ const c03SDL = `
 type User { id: ID! name: String friends(first: Int): [User!] }
 type Query { me: User user(id: ID!): User }
 type Mutation { rename(name: String!): User }
+type Subscription { ticks: Int }
 `
 
 type c03Req struct {
@@ -55,6 +56,9 @@ var c03Corpus = []c03Req{
 	{`{ me { ...F } } fragment F on User { id ...F }`, "", nil, false, false}, // fragment cycle
 }
 
+// lexical tokens of each corpus document, counted by hand (names, punctuators, strings, spreads; "$id" is two)
+var c03Tokens = []int{6, 16, 6, 12, 16, 16, 5, 6, 7, 22, 22, 24, 13, 16}
+
 var c03Schema *ast.Schema
 
 func Setup_C03_gates() {
@@ -86,6 +90,36 @@ func (c03ES) Exec(ctx context.Context) graphql.ResponseHandler {
 		})
 		return &graphql.Response{Data: []byte(`{}`)}
 	}())
+}
+
+// c03LazyES mimics a generated executor more closely: Exec only returns the
+// response function; each call of it resolves one response (a root field
+// through the root-field middleware, a field through the field middleware) -
+// `events` of them, then nil (a query has one, a subscription several).
+type c03LazyES struct {
+	c03ES
+	events int
+}
+
+func (e c03LazyES) Exec(ctx context.Context) graphql.ResponseHandler {
+	c03Ev("exec", -1)
+	opCtx := graphql.GetOperationContext(ctx)
+	sent := 0
+	return func(ctx context.Context) *graphql.Response {
+		if sent >= e.events {
+			return nil
+		}
+		sent++
+		opCtx.RootResolverMiddleware(ctx, func(ctx context.Context) graphql.Marshaler {
+			c03Ev("rootfield", -1)
+			opCtx.ResolverMiddleware(ctx, func(ctx context.Context) (any, error) {
+				c03Ev("resolver", -1)
+				return nil, nil
+			})
+			return graphql.Null
+		})
+		return &graphql.Response{Data: []byte(`{}`)}
+	}
 }
 
 // ---- fakes
@@ -170,6 +204,13 @@ func Harness_C03_gates() {
 	ri := zzsym.Choice("req", len(c03Corpus))
 	req := c03Corpus[ri]
 	e := New(c03ES{})
+	if zzsym.Choice("tokenLimit", 2) == 1 {
+		// a parser token limit well away from every corpus length: a document above it fails parsing (and is never cached)
+		e.SetParserTokenLimit(10)
+		if c03Tokens[ri] > 10 {
+			req.valid, req.docValid = false, false
+		}
+	}
 	npm := zzsym.Choice("npm", zzsym.Param("maxmut", 2)+1)
 	ncm := zzsym.Choice("ncm", zzsym.Param("maxmut", 2)+1)
 	var pms []*c03ParamMutator
@@ -358,7 +399,18 @@ func (x c03RespField) InterceptField(ctx context.Context, next graphql.Resolver)
 // terminal exactly once.
 func Harness_C03_hooks() {
 	c03Log = nil
+	// 0: everything resolved while Exec runs; 1: a query resolved inside its response function; 2: a subscription with two events
+	mode := zzsym.Choice("mode", 3)
 	e := New(c03ES{})
+	query := `{ me { name } }`
+	events := 1
+	switch mode {
+	case 1:
+		e = New(c03LazyES{events: 1})
+	case 2:
+		e = New(c03LazyES{events: 2})
+		query, events = `subscription { ticks }`, 2
+	}
 	n := zzsym.Choice("next", zzsym.Param("maxext", 3)+1)
 	var masks []int
 	for k := 0; k < n; k++ {
@@ -383,11 +435,18 @@ func Harness_C03_hooks() {
 		masks = append(masks, b.mask)
 	}
 	ctx := graphql.StartOperationTrace(context.Background())
-	opCtx, errs := e.CreateOperationContext(ctx, &graphql.RawParams{Query: `{ me { name } }`})
+	opCtx, errs := e.CreateOperationContext(ctx, &graphql.RawParams{Query: query})
 	zzsym.Assert(len(errs) == 0, "corpus operation accepted")
 	rh, ctx2 := e.DispatchOperation(ctx, opCtx)
 	resp := rh(ctx2)
 	zzsym.Assert(resp != nil && string(resp.Data) == `{}`, "response delivered through the response middleware")
+	if mode != 0 {
+		// a transport calls the response function until it answers nil
+		for k := 1; k < events; k++ {
+			zzsym.Assert(rh(ctx2) != nil, "one response per event")
+		}
+		zzsym.Assert(rh(ctx2) == nil, "then the end of the sequence")
+	}
 	// expected log, built independently from the registration list
 	var want []string
 	enter := func(name string, bit int) {
@@ -404,17 +463,37 @@ func Harness_C03_hooks() {
 			}
 		}
 	}
-	enter("op", 1)
-	want = append(want, "exec")
-	enter("root", 4)
-	want = append(want, "rootfield")
-	enter("field", 8)
-	want = append(want, "resolver")
-	exit("field", 8)
-	exit("root", 4)
-	exit("op", 1)
-	enter("resp", 2)
-	exit("resp", 2)
+	if mode == 0 {
+		enter("op", 1)
+		want = append(want, "exec")
+		enter("root", 4)
+		want = append(want, "rootfield")
+		enter("field", 8)
+		want = append(want, "resolver")
+		exit("field", 8)
+		exit("root", 4)
+		exit("op", 1)
+		enter("resp", 2)
+		exit("resp", 2)
+	} else {
+		// the operation hooks wrap the creation of the response function; every call of it - also the
+		// last one, which answers nil - is wrapped by the response hooks, and what it resolves runs inside them
+		enter("op", 1)
+		want = append(want, "exec")
+		exit("op", 1)
+		for k := 0; k < events; k++ {
+			enter("resp", 2)
+			enter("root", 4)
+			want = append(want, "rootfield")
+			enter("field", 8)
+			want = append(want, "resolver")
+			exit("field", 8)
+			exit("root", 4)
+			exit("resp", 2)
+		}
+		enter("resp", 2)
+		exit("resp", 2)
+	}
 	c03Check(want)
 }
 
